@@ -8,7 +8,7 @@ from ..program import AnalysisError, Program, norm, walk_local, ancestors
 from ..report import Check
 from ..types import Types
 from ..util import calls_in, fkey, is_method_call, node_calls, path_of, recv_of, stores_to_attr, where
-from .mgr import comprehension_facts, MGR, CORE, const_resolver, self_call
+from .mgr import module_writers, comprehension_facts, MGR, CORE, const_resolver, self_call
 from .c01 import recipient_sends
 
 
@@ -22,7 +22,7 @@ def conn_error_handlers(prog, ty, f):
         sends = []
         for st in t.body:
             for c in calls_in(st):
-                if is_method_call(c, "send_message"):
+                if is_method_call(c, module_writers(prog)):
                     rt = ty.expr(f, recv_of(c))
                     if rt.kind == "cls" and rt.cls is mc:
                         sends.append(c)
@@ -123,7 +123,11 @@ def run(prog: Program, chk: Check):
                 continue
             c0 = tsends[0]
             rcp = path_of(recv_of(c0))
-            hdr = path_of(c0.args[0]) if c0.args else None
+            # the header being delivered: the send's header argument, or - for a writer that is handed an assembled frame -
+            # the enclosing function's MessageHeader parameter
+            hargs = [a for a in c0.args if ty.expr(f, a).kind == "cls" and "MessageHeader" in prog.base_names(ty.expr(f, a).cls)]
+            fhp = [q for q in f.params() if ty.locals_of(f).get(q) is not None and ty.locals_of(f)[q].kind == "cls" and "MessageHeader" in prog.base_names(ty.locals_of(f)[q].cls)]
+            hdr = path_of(hargs[0]) if hargs else (fhp[0] if fhp else (path_of(c0.args[0]) if c0.args else None))
             for h in hs:
                 calls = [c for st in h.body for c in calls_in(st)]
                 rm = [c for c in calls if (self_call("remove_module")(c) or self_call("disconnect_module")(c)) and c.args and path_of(c.args[0]) == rcp]
@@ -134,7 +138,7 @@ def run(prog: Program, chk: Check):
     # sends to modules outside any try
     for f in mm.methods.values():
         for c in calls_in(f.node):
-            if is_method_call(c, "send_message"):
+            if is_method_call(c, module_writers(prog)):
                 rt = ty.expr(f, recv_of(c))
                 if rt.kind == "cls" and rt.cls.name == "Module":
                     tr = [a for a in ancestors(c) if isinstance(a, ast.Try) and any(c in calls_in(st) for st in a.body)]
